@@ -749,6 +749,10 @@ def gen_C16(r):
         scn["enum"] = {"step": 0, "budget": 120 if _tier() == "quick" else 6000}
         if r.random() < 0.4:
             op["second_signal"] = "s%d" % r.randrange(10**6)
+        elif r.random() < 0.4:
+            # the reader of cond's stdout stops reading for a while (paused pager, Ctrl-S): status lines block
+            op["own_stdout"] = {"mode": "tty", "stall_at": r.choice([0, 60, 150, 300, 600]),
+                                "stall_len": r.choice([5, 15, 40])}
         return scn
     scn = _small_project(r, n=(2, 5), kinds={"exp": 6, "cmd": 3, "group": 1, "combine": 1}, p_par=0.7)
     scn["knobs"]["p_async"] = r.choice([0.0, 1e-3, 5e-3, 2e-2])
